@@ -10,7 +10,11 @@
 // numbers, runs the op through amgcl::mpi, returns a per-rank string; the strings are
 // gathered to rank 0, which prints   <id> <op> <s_0> ; <s_1> ; ... ; <s_{np-1}>
 // Only rank 0 writes to stdout.
+//
+// Every op is bracketed by pmpi::begin_op() / pmpi::end_op() (pmpi_trace.hpp): the per-rank string ends with
+// " PMPI ok" or " PMPI <violations of the request discipline>"; the model side prints " PMPI ok".
 #include "vq_io.hpp"
+#include "pmpi_trace.hpp"   // defines MPI_Isend/Irecv/Wait*/Test*: request-discipline monitor (PMPI)
 #include <amgcl/backend/builtin.hpp>
 #include <amgcl/mpi/util.hpp>
 #include <amgcl/mpi/distributed_matrix.hpp>
@@ -155,6 +159,33 @@ MOP(spmv2) {
     amgcl::backend::spmv(1.0, *D, a, 0.0, y1);
     amgcl::backend::spmv(1.0, *D, b, 0.0, y2);
     return show(y1) + " " + show(y2);
+}
+
+// spmvres A rparts cparts x1 f x2 x3 : product, residual, product on the SAME matrix without any
+// synchronisation in between (the exchange buffers and request variables are reused three times)
+MOP(spmvres) {
+    auto A = t.crsT<double>(); Parts rp = parts(t), cp = parts(t);
+    std::vector<double> x1 = t.vecT<double>(), f = t.vecT<double>(), x2 = t.vecT<double>(), x3 = t.vecT<double>();
+    auto D = dist(*A, rp, cp); D->move_to_backend();
+    long n = rp.n(world.rank);
+    std::vector<double> a = slice(x1, cp), b = slice(x2, cp), c = slice(x3, cp), fl = slice(f, rp), y1(n, NaN), r2(n, NaN), y3(n, NaN);
+    amgcl::backend::spmv(1.0, *D, a, 0.0, y1);
+    amgcl::backend::residual(fl, *D, b, r2);
+    amgcl::backend::spmv(1.0, *D, c, 0.0, y3);
+    return show(y1) + " " + show(r2) + " " + show(y3);
+}
+
+// xtrace A rparts cparts x1 x2 : the MPI call sequence (pmpi::trace) of two consecutive products, compared
+// with the message-passing program of DistMsg.v (exch_prog, two rounds)
+MOP(xtrace) {
+    auto A = t.crsT<double>(); Parts rp = parts(t), cp = parts(t);
+    std::vector<double> x1 = t.vecT<double>(), x2 = t.vecT<double>();
+    auto D = dist(*A, rp, cp); D->move_to_backend();
+    std::vector<double> a = slice(x1, cp), b = slice(x2, cp), y1(rp.n(world.rank), NaN), y2(rp.n(world.rank), NaN);
+    pmpi::mark();
+    amgcl::backend::spmv(1.0, *D, a, 0.0, y1);
+    amgcl::backend::spmv(1.0, *D, b, 0.0, y2);
+    return pmpi::trace();
 }
 
 // inner parts x y
@@ -314,11 +345,16 @@ int main(int argc, char **argv) {
             if (line.empty() || line[0] == '#') continue;
             Tok t(line);
             std::string id = t.s(), op = t.s(), out;
-            auto it = ops().find(op);
+            // "tr:<op>": run <op>, return the rank's MPI call sequence (pmpi::trace) instead of the result; the
+            // extracted Coq discipline checker (DistMsg.v) is run on it by tools/props/C11.py
+            bool want_trace = op.compare(0, 3, "tr:") == 0;
+            auto it = ops().find(want_trace ? op.substr(3) : op);
             if (it == ops().end()) out = "UNSUPPORTED";
             else {
-                try { out = it->second(t); }
+                pmpi::begin_op();
+                try { out = it->second(t); if (want_trace) out = pmpi::trace(); }
                 catch (const std::exception &e) { out = std::string("EXC ") + vq::exc_kind(e); }
+                out += " PMPI " + pmpi::end_op();
             }
             // gather the per-rank strings on rank 0
             int mylen = (int)out.size();
